@@ -29,3 +29,9 @@ open SamVerif.Opt
 #print axioms dce_div_must_stay
 #print axioms licm_no_new_trap
 #print axioms licm_div_hoist_counterexample
+#print axioms lvnSimple_preserves
+#print axioms lvn_preserves
+#print axioms lvn_break_must_be_renamed
+#print axioms lvnL_preserves
+#print axioms cse_hoist_order
+#print axioms cse_div_hoist_counterexample
